@@ -7,8 +7,8 @@ From Clemens Require Import Base.Res Base.Word Base.Bytes Pos.Types Pos.Position
 From Clemens Require Uci.Conc.
 From Clemens.C06Conc Require ConcLemmas.
 From ClemensGen Require Import GoConsts.
-From WipSeqref Require Import SeqAbs SeqRefine SeqMain.
-From WipSeqref Require SeqConc.
+From Clemens.SeqRef Require Import SeqAbs SeqRefine SeqMain.
+From Clemens.SeqRef Require SeqConc.
 Import ListNotations.
 Open Scope list_scope.
 Open Scope nat_scope.
